@@ -55,10 +55,19 @@ def run(ctx):
     ctx.ob('R14.2', 'util.metadata_from_many:both-arms-return-(basepath,fmd)', sorted(rets) == ['(basepath, fmd)', '(basepath, pf0.fmd)'], str(rets), ut.loc(f))
     # legacy: private copies before re-pathing
     if leg:
-        s = src(leg[0])
-        ctx.ob('R14.2', 'util.metadata_from_many:legacy-arm-re-paths-private-copies',
-               s.count('rg = copy.copy(rg)') == 2 and s.count('rg.columns = [copy.copy(c) for c in rg.columns]') == 2,
-               'row groups and chunks are copied before file_path is changed (the opened handles keep theirs)', ut.loc(leg[0]))
+        # (per store of a chunk path: the row-group loop it sits in copies the row group and its chunk list first - however
+        # many such loops the arm has)
+        ok, d = bool(in_leg), []
+        for st in in_leg:
+            loops = [lp for lp in ast.walk(leg[0]) if isinstance(lp, ast.For) and norm(lp.target) == 'rg' and any(st is y for y in ast.walk(lp))]
+            if not loops:
+                ok = False; d.append('store outside a row-group loop: %s' % norm(st)[:60]); continue
+            lp = loops[-1]
+            pre = [norm(x) for x in lp.body if (x.lineno, x.col_offset) < (st.lineno, st.col_offset)]
+            if 'rg = copy.copy(rg)' not in pre or 'rg.columns = [copy.copy(c) for c in rg.columns]' not in pre:
+                ok = False; d.append('no private copies before `%s`' % norm(st)[:60])
+        ctx.ob('R14.2', 'util.metadata_from_many:legacy-arm-re-paths-private-copies', ok,
+               'row groups and chunks are copied before file_path is changed (the opened handles keep theirs) %s' % d, ut.loc(leg[0]))
 
     # R14.3
     final = [s for s in iter_child_stmts(f.body) if isinstance(s, ast.For) and norm(s.iter) == 'pieces' and 'rgs0.extend' in src(s)]
